@@ -487,6 +487,22 @@ def classAnnotations (o : Opts) : Obj :=
   | some c => [("x-annotation", .obj [("mode", .str (String.singleton c))])]
   | none => []
 
+/-- `required` member (generator.py:334-335) -/
+def reqSeg (cfg : Cfg) (o : Opts) (ms : List FieldMeta) : Obj :=
+  if (requiredNames cfg o ms).isEmpty then [] else [("required", strArr (requiredNames cfg o ms))]
+
+/-- `dependentRequired` member (generator.py:336-337) -/
+def depSeg (cfg : Cfg) (o : Opts) (ms : List FieldMeta) : Obj :=
+  if (dependentRequired cfg o ms).isEmpty then [] else [("dependentRequired", .obj (dependentRequired cfg o ms))]
+
+/-- `additionalProperties` member (generator.py:338-343); `addSchema` = the addition type's schema -/
+def addSeg (o : Opts) (addSchema : Obj) : Obj :=
+  match o.addition with
+  | .drop => []
+  | .reject => [("additionalProperties", .bool false)]
+  | .keep => [("additionalProperties", .bool true)]
+  | .convert => [("additionalProperties", .obj addSchema)]
+
 mutual
 /-- `generate_for_type` (generator.py:40-92), dispatching to `generate_for_rule` (166-210),
 `_get_args` (122-152), `generate_for_logical` (94-101), `generate_for_dataclass` (289-353) -/
@@ -509,14 +525,7 @@ def gen (cfg : Cfg) (t : Ty) : Obj :=
     let o := effOpts cfg c
     let ms := fields.map Fld.meta
     [("type", .str "object"), ("properties", .obj (genFields cfg o fields))] ++
-    (if (requiredNames cfg o ms).isEmpty then [] else [("required", strArr (requiredNames cfg o ms))]) ++
-    (if (dependentRequired cfg o ms).isEmpty then [] else [("dependentRequired", .obj (dependentRequired cfg o ms))]) ++
-    (match o.addition with
-     | .drop => []
-     | .reject => [("additionalProperties", .bool false)]
-     | .keep => [("additionalProperties", .bool true)]
-     | .convert => [("additionalProperties", .obj (gen cfg addTy))]) ++
-    classAnnotations o
+    reqSeg cfg o ms ++ depSeg cfg o ms ++ addSeg o (gen cfg addTy) ++ classAnnotations o
 termination_by structural t
 def genList (cfg : Cfg) (ts : List Ty) : List Json :=
   match ts with
@@ -834,6 +843,48 @@ def unknownKeys (o : Opts) : Unknown :=
   | .convert => .converted
 
 end Spec
+
+/-! ### reading a generated document -/
+
+def propertyNames (doc : Json) : List String :=
+  match doc with
+  | .obj kvs => (match lookup "properties" kvs with
+    | some (.obj ps) => keys ps
+    | _ => [])
+  | _ => []
+
+def requiredOf (doc : Json) : List String :=
+  match doc with
+  | .obj kvs => (match lookup "required" kvs with
+    | some (.arr xs) => xs.filterMap strOf
+    | _ => [])
+  | _ => []
+
+def additionalOf (doc : Json) : Option Json :=
+  match doc with
+  | .obj kvs => lookup "additionalProperties" kvs
+  | _ => none
+
+/-- what `additionalProperties` has to say for each treatment of unknown keys -/
+def Spec.additionalMeans (cfg : Cfg) (addTy : Ty) : Spec.Unknown → Option Json
+  | .dropped => none
+  | .rejected => some (.bool false)
+  | .kept => some (.bool true)
+  | .converted => some (generate cfg addTy)
+
+/-- the options "this class in the mode the generator was asked for" would be parsed with -/
+def requestedOpts (cfg : Cfg) (c : ClassMeta) : Opts :=
+  match cfg.genMode with
+  | some m => { c.opts with mode := some m }
+  | none => c.opts
+
+namespace KnownDefect
+/-- `generator-mode-ignored`: a generator mode different from the class's own mode was asked for -/
+def modeIgnored (cfg : Cfg) (c : ClassMeta) : Bool :=
+  match cfg.genMode with
+  | some m => c.opts.mode != some m
+  | none => false
+end KnownDefect
 
 /-- what the parser does (base.py:390-421 `parse_addition`) -/
 def parserUnknown (o : Opts) : Spec.Unknown :=
